@@ -324,11 +324,10 @@ CONTROLS['C04'] = [
       "                allocation.delete_consumers([])\n\n    try:\n        _create_allocations()",
       'R4.3'),
     M('c04-swallow-in-scope', HA,
-      "        alloc_obj.replace_all(ctx, allocations)\n        LOG.debug(\"Successfully wrote allocations %s\", allocations)",
+      "        alloc_obj.replace_all(ctx, allocations)\n        # A consumer auto-created for an entry",
       "        try:\n            alloc_obj.replace_all(ctx, allocations)\n"
       "        except exception.InvalidInventory:\n            pass\n"
-      "        LOG.debug(\"Successfully wrote allocations %s\", allocations)",
-      'R4.'),
+      "        # A consumer auto-created for an entry", 'R4.'),
     M('c04-swallow-in-object-layer', RP,
       "    if to_delete:\n        _delete_inventory_from_provider(context, rp, to_delete)\n    if to_add:\n        _add_inventory_to_provider(context, rp, inv_list, to_add)",
       "    if to_delete:\n        try:\n            _delete_inventory_from_provider(context, rp, to_delete)\n"
